@@ -22,8 +22,9 @@ from harness.core import SPECS, Machinery
 
 LEVEL = "model_checking"
 RULE = ("vectors = all well-formed shapes (class kind x <=k typed field kinds x <=k dynamic field kinds x result kind x "
-        "exception kind, at most k varied features; k=1 quick, k=2 thorough) x 19 serialisation paths x "
-        "{single trip with representative 0..r-1, double trip}, enumerated by TLC as the states of Serde.tla; each "
+        "exception kind, at most k varied features; k=1 quick, k=2 thorough) x 19 serialisation paths (two-feature shapes on "
+        "6 of them: one per serialiser family + the exception-carrying ticks) x {double trip, single trip with another "
+        "representative} (thorough: three representatives + double trip), enumerated by TLC as the states of Serde.tla; each "
         "concretised with fixed representative values and run through the real serialisers; non-trivial = vector with a "
         "dynamic field, an exception, a non-scalar/nested typed field or result, or a library event class with such fields")
 
@@ -211,3 +212,34 @@ def run(chk):
         "non-finite floats, non-string dict keys, bytes and lone surrogates are outside the grid (not JSON-representable)",
         "one fixed value table per kind (representatives 0-1 in quick, 0-2 in thorough); the grid bounds shapes, not values",
     ]
+
+
+def replay(path):
+    """./check C18 --replay replays/C18-xxxx.json : run the recorded vector again on the real code and let the observer judge."""
+    import json
+    import shutil
+    import types
+
+    from harness.core import WORK
+    from harness.drivers import _obslib
+    from harness.drivers import serde as drv
+
+    saved = json.loads(open(path).read())
+    v = saved["replay"]["vector"]
+    r = drv.evaluate(v)
+    work = WORK / "C18_replay"
+    shutil.rmtree(work, ignore_errors=True)
+    work.mkdir(parents=True)
+    fake = types.SimpleNamespace(work=work, record_tlc=lambda *a, **k: None)
+    try:
+        verdicts, _ = _obslib.observe(fake, "obs/Obs_C18.tla", "obs/Obs_C18.cfg", {"traces": [_for_tlc(r)]}, libs=("tables",),
+                                      name="replay", record=False)
+    finally:
+        shutil.rmtree(work, ignore_errors=True)
+    failing = sorted(verdicts[1][2])
+    print("vector: %s" % _describe(r))
+    print("wire: %s" % r["wire"][:300])
+    for c in failing:
+        print("FAILS %s -- %s" % (c, _detail(r, c)))
+    print("recorded key: %s -> %s" % (saved["key"], "reproduced" if saved["key"] in ["obs:" + c for c in failing] else "NOT reproduced"))
+    return 1 if failing else 0
